@@ -379,7 +379,7 @@ type jobResult struct {
 
 // soloRun runs one job alone; names is the names table it passes to ImportNames
 // (a private copy for reference runs, the shared object for the sequential leg).
-func soloRun(j ConcJob, names map[string]string) (jobResult, *fileSim) {
+func soloRun(j ConcJob, names map[string]string, saveDir ...string) (jobResult, *fileSim) {
 	sim := j.Exec.sim()
 	var res jobResult
 	func() {
@@ -390,6 +390,9 @@ func soloRun(j ConcJob, names map[string]string) (jobResult, *fileSim) {
 		}()
 		env := newEnv(sim)
 		env.SharedNames = names
+		if len(saveDir) > 1 {
+			env.FlatSaveDir, env.SaveTag = saveDir[0], saveDir[1]
+		}
 		res.hist = Exec(j.Recipe, env)
 	}()
 	return res, sim
@@ -422,7 +425,7 @@ func compareJob(job int, what string, ref, got jobResult) *Violation {
 	return nil
 }
 
-func runInterleaved(cc *ConcCase, estSteps uint64, pristine string, names map[string]string, ri *RunInfo) ([]jobResult, *concSim) {
+func runInterleaved(cc *ConcCase, estSteps uint64, pristine string, names map[string]string, saveDir string, ri *RunInfo) ([]jobResult, *concSim) {
 	s := &concSim{spec: cc.Sched, rng: NewRNG(cc.Sched.Seed), mainWake: make(chan struct{}), replay: map[uint64]int{}, changeAt: map[uint64]bool{}}
 	for _, sw := range cc.Sched.Switches {
 		s.replay[sw.At] = sw.To
@@ -464,6 +467,7 @@ func runInterleaved(cc *ConcCase, estSteps uint64, pristine string, names map[st
 				}()
 				env := newEnv(nil)
 				env.SharedNames = names
+				env.FlatSaveDir, env.SaveTag = saveDir, fmt.Sprintf("job%d", t.id)
 				env.RenderHook = func(in bool) { t.inRender = in }
 				results[t.id].hist = execBody(job.Recipe, env, nil)
 			}()
@@ -546,6 +550,9 @@ func genJob(r *RNG, paths []PathSpec, small bool, salt ...string) *Recipe {
 		}
 	}
 	rec.Ops = append(rec.Ops, Op{K: "render"})
+	if r.Chance(0.25) {
+		rec.Ops = append(rec.Ops, Op{K: "save", F: &FSPlan{Target: "fresh"}})
+	}
 	for i := r.Intn(3); i > 0; i-- {
 		switch {
 		case len(rec.Frags) > 0 && r.Chance(0.4):
@@ -639,6 +646,12 @@ func (propC09) Check(c *Case) (*Violation, *RunInfo) {
 			viol = &Violation{Rule: "C09-O2-global-state-written", Detail: "a package-level variable of package jen changed " + when + " (in a package without synchronisation that is a data race between concurrent callers, and later Files see what earlier ones left behind)"}
 		}
 	}
+	// directories for Save ops: one per reference run, one shared by all jobs of a leg
+	sb := sandboxDir()
+	defer cleanSandbox(sb)
+	for _, d := range []string{"solo", "seq", "conc", "share"} {
+		os.MkdirAll(sb+"/"+d, 0755)
+	}
 	// solo references
 	refs := make([]jobResult, len(cc.Jobs))
 	table := namesTable(cc)
@@ -652,7 +665,9 @@ func (propC09) Check(c *Case) (*Violation, *RunInfo) {
 	var est uint64
 	for i, j := range cc.Jobs {
 		var sim *fileSim
-		refs[i], sim = soloRun(j, copyNames(table))
+		os.MkdirAll(fmt.Sprintf("%s/solo/%d", sb, i), 0755)
+		restoreGlobals() // each reference is the job alone in a fresh process
+		refs[i], sim = soloRun(j, copyNames(table), fmt.Sprintf("%s/solo/%d", sb, i), fmt.Sprintf("job%d", i))
 		globalsChanged(fmt.Sprintf("while job %d was built and rendered alone", i))
 		est += sim.Steps
 		frozen.Jobs = append(frozen.Jobs, ConcJob{Recipe: j.Recipe, Exec: frozenSpec(sim)})
@@ -695,6 +710,7 @@ func (propC09) Check(c *Case) (*Violation, *RunInfo) {
 				}()
 				env := newEnv(sim)
 				env.SharedNames = shared
+				env.FlatSaveDir, env.SaveTag = sb+"/share", fmt.Sprintf("job%d", ji)
 				got.hist = execBody(j.Recipe, env, sharedFrags)
 			}()
 			for _, op := range j.Recipe.Ops {
@@ -722,7 +738,7 @@ func (propC09) Check(c *Case) (*Violation, *RunInfo) {
 		if ji >= len(cc.Jobs) {
 			continue
 		}
-		got, _ := soloRun(cc.Jobs[ji], shared)
+		got, _ := soloRun(cc.Jobs[ji], shared, sb+"/seq", fmt.Sprintf("job%d", ji))
 		if viol == nil {
 			if v := compareJob(ji, "after the other jobs (sequential order)", refs[ji], got); v != nil {
 				viol = v
@@ -731,7 +747,16 @@ func (propC09) Check(c *Case) (*Violation, *RunInfo) {
 	}
 	callerMapIntact("in the sequential leg")
 	// interleaved leg
-	results, s := runInterleaved(cc, est, pristine, shared, ri)
+	if simhook.Meta["pkg_spawns_goroutines"] != "" && simhook.Meta["pkg_spawns_goroutines"] != "0" {
+		// package jen starts goroutines of its own: they would run outside the baton, so the
+		// cooperative scheduler cannot own the interleaving; the sequential, share and race legs remain
+		ri.count("interleaved_leg_skipped_pkg_spawns_goroutines", 1)
+		ri.Key = digest("seq", frozen.Jobs)
+		ri.Inter = ri.Key
+		ri.Nontrivial = len(cc.Jobs) >= 2
+		return viol, ri
+	}
+	results, s := runInterleaved(cc, est, pristine, shared, sb+"/conc", ri)
 	callerMapIntact("in the interleaved leg")
 	ri.Steps += s.step
 	frozen.Sched = SchedSpec{Kind: "replay", Switches: s.log}
@@ -846,6 +871,9 @@ func (propC09) Shrink(c *Case, v *Violation) []*Case {
 func raceBatch(jobs []ConcJob, repeat int) (mismatch string) {
 	table := namesTable(&ConcCase{Jobs: jobs})
 	shared := copyNames(table)
+	sb := sandboxDir()
+	defer cleanSandbox(sb)
+	os.MkdirAll(sb+"/conc", 0755)
 	// the concurrent batches run first, on whatever state the process is in (cold on the
 	// first round); the solo references are taken afterwards
 	var all [][]jobResult
@@ -865,6 +893,7 @@ func raceBatch(jobs []ConcJob, repeat int) (mismatch string) {
 				<-start
 				env := newEnv(nil)
 				env.SharedNames = shared
+				env.FlatSaveDir, env.SaveTag = sb+"/conc", fmt.Sprintf("job%d", i)
 				results[i].hist = execBody(jobs[i].Recipe, env, nil)
 			}(i)
 		}
@@ -874,7 +903,8 @@ func raceBatch(jobs []ConcJob, repeat int) (mismatch string) {
 	}
 	refs := make([]jobResult, len(jobs))
 	for i, j := range jobs {
-		refs[i], _ = soloRun(j, copyNames(table))
+		os.MkdirAll(fmt.Sprintf("%s/solo%d", sb, i), 0755)
+		refs[i], _ = soloRun(j, copyNames(table), fmt.Sprintf("%s/solo%d", sb, i), fmt.Sprintf("job%d", i))
 	}
 	if !sameNames(shared, table) {
 		mismatch = "the names table shared by the jobs was modified by the library"
